@@ -231,16 +231,35 @@ def run_case(ctx, case):
             open(bhdr, "w").write(txt)
             with warnings.catch_warnings():
                 warnings.simplefilter("ignore")
-                try:
-                    gb = g.Grid.from_header(bhdr)
-                    okb = values_equal(np.asarray(gb.data), stored)
-                    ctx.check("load.bigendian", okb, f"load|big-endian|values|{tagk}",
-                              case, lambda: {"expected": stored.ravel()[:4].tolist(),
-                                             "loaded": np.asarray(gb.data).ravel()[:4]
-                                             .tolist()})
-                except Exception as e:
-                    ctx.check("load.bigendian", False, "load|big-endian|raises", case,
-                              {"exc": repr(e)})
+                def _be_header():
+                    return g.Grid.from_header(bhdr)
+
+                def _be_stream():
+                    with open(bhdr, "r") as fh, open(bbil, "rb") as fd:
+                        return g.Grid.from_stream(fh, fd)
+
+                def _be_zip():
+                    fzb = str(base) + "_be.zip"
+                    with zipfile.ZipFile(fzb, "w") as z:
+                        z.write(bhdr, "be/grid.hdr")
+                        z.write(bbil, "be/grid.bil")
+                    return g.Grid.from_zip(fzb, "be/grid.hdr")
+
+                for lname, lfun in (("from_header", _be_header),
+                                    ("from_stream", _be_stream), ("from_zip", _be_zip)):
+                    try:
+                        gb = lfun()
+                        okb = values_equal(np.asarray(gb.data), stored) and \
+                            not geometry_equal(gr, gb)
+                        ctx.check("load.bigendian", okb,
+                                  f"load|big-endian|{lname}|values|{tagk}", case,
+                                  lambda: {"expected": stored.ravel()[:4].tolist(),
+                                           "loaded": np.asarray(gb.data).ravel()[:4]
+                                           .tolist()})
+                    except Exception as e:
+                        ctx.check("load.bigendian", False,
+                                  f"load|big-endian|{lname}|raises", case,
+                                  {"exc": repr(e)})
     finally:
         for f in wd.glob(base.name + "*"):
             try:
